@@ -364,7 +364,7 @@ def swrap(t):
 
 def _defer(fn):
     def w(self, o):
-        if isinstance(o, _np.ndarray):
+        if isinstance(o, (_np.ndarray, SComplex)):
             return NotImplemented
         return fn(self, o)
     w.__name__ = fn.__name__
@@ -552,6 +552,62 @@ def _concrete_of(x):
     if isinstance(x, SBool):
         return None
     return _cval(x)
+
+
+class SComplex(Sym):
+    """complex value as a pair of exact-real parts (only what the diagnostics need: + - * conj real imag)"""
+    __slots__ = ('re', 'im')
+    __hash__ = None
+
+    def __init__(self, re, im):
+        self.re, self.im = re, im
+
+    @staticmethod
+    def _parts(o):
+        if isinstance(o, SComplex):
+            return o.re, o.im
+        if isinstance(o, complex):
+            return o.real, o.imag
+        return o, 0
+
+    def __add__(self, o):
+        if isinstance(o, _np.ndarray):
+            return NotImplemented
+        a, b = self._parts(o)
+        return SComplex(self.re + a, self.im + b)
+    __radd__ = __add__
+
+    def __sub__(self, o):
+        if isinstance(o, _np.ndarray):
+            return NotImplemented
+        a, b = self._parts(o)
+        return SComplex(self.re - a, self.im - b)
+
+    def __rsub__(self, o):
+        a, b = self._parts(o)
+        return SComplex(a - self.re, b - self.im)
+
+    def __mul__(self, o):
+        if isinstance(o, _np.ndarray):
+            return NotImplemented
+        a, b = self._parts(o)
+        return SComplex(self.re * a - self.im * b, self.re * b + self.im * a)
+    __rmul__ = __mul__
+
+    def __neg__(self):
+        return SComplex(-self.re, -self.im)
+
+    def conjugate(self):
+        return SComplex(self.re, -self.im)
+    conj = conjugate
+
+    @property
+    def real(self):
+        return self.re
+
+    @property
+    def imag(self):
+        return self.im
 
 
 class SPoison(Sym):
